@@ -403,6 +403,8 @@ def der_lenform_worker(shards):
     for lo, hi in shards:
         for L in range(lo, hi):
             for kind, tag, mk in kinds:
+                if L > 2000 and kind in ("seq", "set"):
+                    continue            # tens of thousands of members: the length octets under test are the same
                 content = _content_of_len(kind, L)
                 if content is None:
                     continue
@@ -934,12 +936,34 @@ def counted(fn, *a):
     return r, cc.n
 
 
-def _test_keys():
+_SMALL_RSA = None
+
+
+def _small_rsa():
+    """512-bit RSA key (deterministic prime search with the reference): importing a private key re-runs the
+    consistency checks, which at 1024 bits cost 20 ms per mutant and dominated the quick tier"""
+    global _SMALL_RSA
+    if _SMALL_RSA is None:
+        from Crypto.PublicKey import RSA
+        from ..ref import nt
+        p = nt.next_prime((1 << 255) + (1 << 254) + 0x1234567)
+        q = nt.next_prime((1 << 255) + (1 << 253) + 0x7654321)
+        while (p - 1) % 65537 == 0:
+            p = nt.next_prime(p + 2)
+        while (q - 1) % 65537 == 0 or q == p:
+            q = nt.next_prime(q + 2)
+        n, e = p * q, 65537
+        d = pow(e, -1, (p - 1) * (q - 1))
+        _SMALL_RSA = RSA.construct((n, e, d, p, q), consistency_check=True)
+    return _SMALL_RSA
+
+
+def _test_keys(quick=False):
     """one valid key per (type, format, protection) -> list of (label, importer, blob, passphrase)"""
     from Crypto.PublicKey import RSA, DSA, ECC
     from ..keys import rsa_key, dsa_key
     out = []
-    rk = rsa_key(1024)
+    rk = _small_rsa() if quick else rsa_key(1024)
     pw = b"pw"
     prot = dict(protection="PBKDF2WithHMAC-SHA1AndAES128-CBC", prot_params={"iteration_count": 1})
     sprot = dict(protection="scryptAndAES128-CBC", prot_params={"iteration_count": 2, "block_size": 1})
@@ -1066,7 +1090,7 @@ def key_mutants(blob, is_der, quick=False):
 
 def key_worker(shards):
     acc = Acc()
-    keys = _test_keys()
+    keys = _test_keys(shards[0][3])
     for (ki, part, nparts, quick) in shards:
         tname, lab, blob, pw = keys[ki]
         is_der = blob[:1] == b"\x30"
@@ -1273,7 +1297,7 @@ def run(ctx):
     sh = [[("rt", a, a + 10)] for a in range(0, 110 if not q else 60, 10)] + [[("mut", i, 16)] for i in range(16)]
     ctx.pmap(pem_worker, sh)
     # key files
-    nk = len(_test_keys())
+    nk = len(_test_keys(q))
     parts = 8
     ctx.pmap(key_worker, [[(ki, p, parts, q)] for ki in range(nk) for p in range(parts)])
     ctx.pmap(crafted_worker, [0])
